@@ -4,7 +4,7 @@
 use crate::util::*;
 use chrono::{TimeZone, Utc};
 use opcua::types::*;
-use std::io::Cursor;
+use std::io::{Cursor, Read};
 use std::sync::Arc;
 
 // ---------------------------------------------------------------------------------------------
@@ -358,20 +358,20 @@ pub fn enc_typed(t: &Ty, v: &UVal, out: &mut Vec<u8>) -> Result<usize, ()> {
     }
 }
 
-fn dec_as<T: BinaryEncoder<T>, F: Fn(T) -> Variant>(s: &mut Cursor<&[u8]>, o: &DecodingOptions, f: F) -> Result<Variant, StatusCode> { T::decode(s, o).map(f) }
+fn dec_as<S: Read, T: BinaryEncoder<T>, F: Fn(T) -> Variant>(s: &mut S, o: &DecodingOptions, f: F) -> Result<Variant, StatusCode> { T::decode(s, o).map(f) }
 /// T::decode for the built-in with encoding mask k, wrapped in a Variant
-pub fn dec_scalar(k: u8, s: &mut Cursor<&[u8]>, o: &DecodingOptions) -> Result<Variant, StatusCode> {
+pub fn dec_scalar<S: Read>(k: u8, s: &mut S, o: &DecodingOptions) -> Result<Variant, StatusCode> {
     match k {
-        1 => dec_as::<bool, _>(s, o, Variant::Boolean), 2 => dec_as::<i8, _>(s, o, Variant::SByte), 3 => dec_as::<u8, _>(s, o, Variant::Byte),
-        4 => dec_as::<i16, _>(s, o, Variant::Int16), 5 => dec_as::<u16, _>(s, o, Variant::UInt16), 6 => dec_as::<i32, _>(s, o, Variant::Int32),
-        7 => dec_as::<u32, _>(s, o, Variant::UInt32), 8 => dec_as::<i64, _>(s, o, Variant::Int64), 9 => dec_as::<u64, _>(s, o, Variant::UInt64),
-        10 => dec_as::<f32, _>(s, o, Variant::Float), 11 => dec_as::<f64, _>(s, o, Variant::Double), 12 => dec_as::<UAString, _>(s, o, Variant::String),
-        13 => dec_as::<DateTime, _>(s, o, |x| Variant::DateTime(Box::new(x))), 14 => dec_as::<Guid, _>(s, o, |x| Variant::Guid(Box::new(x))),
-        15 => dec_as::<ByteString, _>(s, o, Variant::ByteString), 16 => dec_as::<UAString, _>(s, o, Variant::XmlElement),
-        17 => dec_as::<NodeId, _>(s, o, |x| Variant::NodeId(Box::new(x))), 18 => dec_as::<ExpandedNodeId, _>(s, o, |x| Variant::ExpandedNodeId(Box::new(x))),
-        19 => dec_as::<StatusCode, _>(s, o, Variant::StatusCode), 20 => dec_as::<QualifiedName, _>(s, o, |x| Variant::QualifiedName(Box::new(x))),
-        21 => dec_as::<LocalizedText, _>(s, o, |x| Variant::LocalizedText(Box::new(x))), 22 => dec_as::<ExtensionObject, _>(s, o, |x| Variant::ExtensionObject(Box::new(x))),
-        25 => dec_as::<DiagnosticInfo, _>(s, o, |x| Variant::DiagnosticInfo(Box::new(x))),
+        1 => dec_as::<S, bool, _>(s, o, Variant::Boolean), 2 => dec_as::<S, i8, _>(s, o, Variant::SByte), 3 => dec_as::<S, u8, _>(s, o, Variant::Byte),
+        4 => dec_as::<S, i16, _>(s, o, Variant::Int16), 5 => dec_as::<S, u16, _>(s, o, Variant::UInt16), 6 => dec_as::<S, i32, _>(s, o, Variant::Int32),
+        7 => dec_as::<S, u32, _>(s, o, Variant::UInt32), 8 => dec_as::<S, i64, _>(s, o, Variant::Int64), 9 => dec_as::<S, u64, _>(s, o, Variant::UInt64),
+        10 => dec_as::<S, f32, _>(s, o, Variant::Float), 11 => dec_as::<S, f64, _>(s, o, Variant::Double), 12 => dec_as::<S, UAString, _>(s, o, Variant::String),
+        13 => dec_as::<S, DateTime, _>(s, o, |x| Variant::DateTime(Box::new(x))), 14 => dec_as::<S, Guid, _>(s, o, |x| Variant::Guid(Box::new(x))),
+        15 => dec_as::<S, ByteString, _>(s, o, Variant::ByteString), 16 => dec_as::<S, UAString, _>(s, o, Variant::XmlElement),
+        17 => dec_as::<S, NodeId, _>(s, o, |x| Variant::NodeId(Box::new(x))), 18 => dec_as::<S, ExpandedNodeId, _>(s, o, |x| Variant::ExpandedNodeId(Box::new(x))),
+        19 => dec_as::<S, StatusCode, _>(s, o, Variant::StatusCode), 20 => dec_as::<S, QualifiedName, _>(s, o, |x| Variant::QualifiedName(Box::new(x))),
+        21 => dec_as::<S, LocalizedText, _>(s, o, |x| Variant::LocalizedText(Box::new(x))), 22 => dec_as::<S, ExtensionObject, _>(s, o, |x| Variant::ExtensionObject(Box::new(x))),
+        25 => dec_as::<S, DiagnosticInfo, _>(s, o, |x| Variant::DiagnosticInfo(Box::new(x))),
         _ => Err(StatusCode::BadDecodingError),
     }
 }
@@ -379,7 +379,7 @@ macro_rules! arr_dec { ($t:ty, $s:expr, $o:expr, $wrap:expr) => {{
     let r: Option<Vec<$t>> = read_array($s, $o)?;
     Ok(UVal::A(r.map(|l| l.into_iter().map(|x| UVal::S($wrap(x))).collect())))
 }}}
-pub fn dec_typed(t: &Ty, s: &mut Cursor<&[u8]>, o: &DecodingOptions) -> Result<UVal, StatusCode> {
+pub fn dec_typed<S: Read>(t: &Ty, s: &mut S, o: &DecodingOptions) -> Result<UVal, StatusCode> {
     match t {
         Ty::S(k) => dec_scalar(*k, s, o).map(UVal::S),
         Ty::Var => Variant::decode(s, o).map(UVal::V),
